@@ -101,6 +101,11 @@ def foEvent (s : Failover.St) (e : String) : Except String Failover.St :=
   | ["gu", t] => match t.toNat? with
     | some t => stepOr (.giveUp t) fun _ => none
     | none => .error "unparsable"
+  | ["fi", t] => match t.toNat? with       -- the call has returned an answer: no step of the machine
+    | some t => match s.callers[t]? with
+      | some (.ok _ _) => .ok s
+      | pc => .error s!"the call returned, in the model the caller is at {(pc.map foPcStr).getD "?"}"
+    | none => .error "unparsable"
   | _ => .error "unparsable"
 
 def foAll : List String → Nat → Failover.St → Except (Nat × String) Failover.St
@@ -183,6 +188,11 @@ def swEvent (x : SwSt) (e : String) : Except String SwSt :=
         | some s' => .ok { s := s', sids := (sid, s'.current) :: x.sids }
     | _, _ => .error "unparsable"
   | ["ul", t] => plain t .unlock
+  | ["fi", t] => match t.toNat? with       -- the call has returned: no step of the machine
+    | some t => match s.callers[t]? with
+      | some (.done _) | some (.panicked _) | some .swapped | some .refused => .ok x
+      | pc => .error s!"the call returned, in the model the caller is at {(pc.map (swPcStr x)).getD "?"}"
+    | none => .error "unparsable"
   | _ => .error "unparsable"
 
 def swAll : List String → Nat → SwSt → Except (Nat × String) SwSt
